@@ -31,6 +31,9 @@ def jobs(tier):
         NS, NV, NE, NL = (0, 1, 2, 4, 6, 8), (1, 2, 3, 4), (1, 2, 3, 4), (8, 64)
     else:
         NS, NV, NE, NL = tuple(range(0, 10)), (1, 2, 3, 4, 5), (1, 2, 3, 4, 5, 6), (8, 64, 256)   # formula side: n >= 10 is not decided by z3 within 120 s per query (measured)
+    # history: the same strand asked for checks of OTHER lengths first (a memo keyed by the strand alone is then stale)
+    for n, nv, prior in ((3, 3, [1, 5]), (4, 2, [4]), (2, 4, [1, 2])):
+        J.append(dict(side="formula", n=n, n_vt=nv, prior=prior))
     for n in NS:
         for nv in NV:
             J.append(dict(side="formula", n=n, n_vt=nv))
@@ -86,12 +89,17 @@ def body(e, L, cfg):
         return lemma(e, n)
 
     def cex(m, codes2=None):
-        c = {"kind": "vt", "strand": oracles.model_string(m, codes), "n_vt": nv}
+        c = {"kind": "vt", "strand": oracles.model_string(m, codes), "n_vt": nv, "prior": cfg.get("prior")}
         if codes2 is not None:
             c["edited"] = oracles.model_string(m, codes2)
             c["fast"] = bool(cfg.get("fast"))
             c["L"] = 2 * len(codes2)
         return c
+    for pv in cfg.get("prior") or []:
+        try:
+            L.set_vt(s, pv)
+        except Exception:
+            pass
     try:
         r1 = L.set_vt(s, nv)
     except core.Abort:
